@@ -11,7 +11,7 @@ RULE = ("cases: (fixed grammar with computed repetitions + random constraint fro
         "constraint; distinct by (spec, settings, seed).")
 TIMEOUTS = {"quick": (35, 300), "thorough": (240, 2400)}
 MIN = {"quick": {"cases": 120, "nontrivial": 40, "observed": {"solutions_judged": 800, "solutions_judged_by_reference": 400, "runs_with_swallowed_exceptions": 10}},
-       "thorough": {"cases": 1400, "nontrivial": 500, "observed": {"solutions_judged": 12000}}}
+       "thorough": {"cases": 1400, "nontrivial": 500, "observed": {"solutions_judged": 7000}}}
 ASSUMPTIONS = ["constructs on which C07 records a known deviation (`..` selecting the base node itself, `not` before a comparison) are not generated here",
                "index selectors that run out of range on a solution are an abstention (docs silent)"]
 
